@@ -45,6 +45,7 @@ def dispatch (line : String) : String :=
       | "mon.c01" => handleMonC01 args
       | "mon.c12" => handleMonC12 args
       | "mon.c20" => handleMonC20 args
+      | "mon.traced" => handleMonTraced args
       | "trace.frame" => handleTraceFrame args
       | "mon.frame" => handleMonFrame args
       | "trace.coll" => handleTraceColl args
